@@ -160,13 +160,25 @@ Qed.
 Definition with_default' (c : column) (d : option dflt) : column :=
   mkColumn (c_name c) (c_class c) (c_T c) (c_null c) d (c_gen c) (c_comment c).
 
-(** a bool column whose default goes from 1 to the expression (1 = 2): nothing is reported *)
+(** a bool column whose default goes from 1 to the expression (1 = 2): reported (since fix
+    C02-mysql-bool-default-unknown-value; before, nothing was) *)
 Definition w_bool_col : column :=
   mkColumn [102]%N MY_BOOL [98;111;111;108]%N false (Some (DLit [49]%N)) None None.
 Definition w_bool_col' : column := with_default' w_bool_col (Some (DRaw [40;49;32;61;32;50;41]%N)).
 
-Lemma w_bool_unreported t : mysql_column_change t w_bool_col w_bool_col' = Some 0%N.
+Lemma w_bool_reported t : mysql_column_change t w_bool_col w_bool_col' = Some ChangeDefault.
 Proof. vm_compute. reflexivity. Qed.
+
+(** a value boolValue does not know: every textual difference is reported *)
+Lemma mysql_bool_default_unknown c c' d1 d2 :
+  c_class c = MY_BOOL -> default_value c = Some d1 -> default_value c' = Some d2 ->
+  bool_value d1 = None \/ bool_value d2 = None ->
+  mysql_default_changed c c' = negb (str_eqb d1 d2).
+Proof.
+  intros K D1 D2 U. unfold mysql_default_changed. rewrite D1, D2, K.
+  destruct (str_eqb d1 d2); [reflexivity|]. simpl.
+  destruct U as [U|U]; rewrite U; [|destruct (bool_value d1)]; reflexivity.
+Qed.
 
 (** what does hold for bool defaults: two known truth values are compared as such *)
 Lemma mysql_bool_default_known c c' d1 d2 a b :
@@ -223,14 +235,15 @@ Proof.
   simpl in K. discriminate.
 Qed.
 
-(** citext -> ltree: nothing is reported *)
+(** citext -> ltree: reported, with and without a schema scope (since fix
+    C02-postgres-udt-type-without-scope; before, nothing was without a scope) *)
 Definition w_udt_col (T : str) : column := mkColumn [99]%N PG_UDT T false None None None.
-Lemma w_udt_unreported t :
-  pg_column_change t (w_udt_col [99;105;116;101;120;116]%N) (w_udt_col [108;116;114;101;101]%N) = Some 0%N.
+Lemma w_udt_reported t :
+  pg_column_change t (w_udt_col [99;105;116;101;120;116]%N) (w_udt_col [108;116;114;101;101]%N) = Some ChangeType.
 Proof. vm_compute. reflexivity. Qed.
 
 (** with a schema scope a change of the user-defined type is reported exactly when the names
-    differ after the scope's qualifier is cut off *)
+    differ after the scope's qualifier is cut off; without a scope exactly when the names differ *)
 Lemma pg_udt_type_changed_ns ns c c' :
   ns <> [] -> c_class c = PG_UDT -> c_class c' = PG_UDT ->
   pg_type_changed_ns ns c c' =
@@ -241,4 +254,11 @@ Proof.
   destruct (str_eqb (fld 0 (c_T c)) (fld 0 (c_T c'))) eqn:D; simpl.
   - apply str_eqb_eq in D. rewrite D, str_eqb_refl. reflexivity.
   - reflexivity.
+Qed.
+
+Lemma pg_udt_type_changed_noscope c c' :
+  c_class c = PG_UDT -> c_class c' = PG_UDT ->
+  pg_type_changed_ns [] c c' = Some (negb (str_eqb (fld 0 (c_T c)) (fld 0 (c_T c')))).
+Proof.
+  intros K K'. unfold pg_type_changed_ns. rewrite K, K'. simpl. rewrite andb_true_r. reflexivity.
 Qed.
